@@ -449,6 +449,12 @@ def plan_structure(ctx):
         if coll == "keytree":
             wide["tspan"] = 40
         futs += random_jobs(ctx, [coll], 1 if q else 3, wide, tag="-churn")
+        # clear churn: few keys, one long history with very many clears (a slot or a bit of capacity
+        # lost per clear shows as growth that the peak population cannot explain)
+        cc = {"keys": 6, "steps": 1800 if q else 9000, "seglen": 100000, "clearden": 1}
+        if coll == "keytree":
+            cc["tspan"] = 4
+        futs += random_jobs(ctx, [coll], 1 if q else 2, cc, tag="-clearchurn")
         # large trees, sampled: the snapshot is shipped with every n-th call only
         big = {"keys": 400 if q else 1500, "steps": 2500 if q else 10000, "seglen": 100000, "clears": 0, "snapevery": 125 if q else 500}
         if coll == "keytree":
